@@ -21,7 +21,10 @@ Open Scope Z_scope.
 """
 TACTIC = """Ltac kernel :=
   intros; cbv beta delta [%(unfold)s] ;
-  repeat (match goal with |- context [if ?b then _ else _] => destruct b eqn:? end);
+  repeat (match goal with
+          | |- context [match ?o with Some _ => _ | None => _ end] => destruct o eqn:?
+          | |- context [if ?b then _ else _] => destruct b eqn:?
+          end);
   first [ reflexivity
         | lia
         | apply Bool.eq_iff_eq_true;
@@ -82,6 +85,21 @@ KERNELS = [
          outputs=["append:self.rewards", "store:self.current_makespan"],
          model="(cur - Z.max cur e, Z.max cur e)", unfold="",
          props=["C13"]),
+    # IdleTimeReward.update: the row of the machine without the operation just added, its last element, the gap
+    dict(name="idle_time_reward_update", file="job_shop_lib/reinforcement_learning/_reward_observers.py",
+         cls="IdleTimeReward", fn="update", imports="Feasible",
+         params="(has_prev : bool) (prev_end st : Z)", args="I x row", rtype="Z",
+         expected={"machine_id": "scheduled_operation.machine_id",
+                   "machine_schedule": "self.dispatcher.schedule.schedule[machine_id][:-1]",
+                   "last_operation": "machine_schedule[-1]"},
+         leaves={"machine_schedule": ("has_prev", "bool"), "last_operation.end_time": ("prev_end", "Z"),
+                 "scheduled_operation.start_time": ("st", "Z")},
+         outputs=["append:self.rewards"],
+         call="gen_k (match last_opt row with Some _ => true | None => false end) "
+              "(match last_opt row with Some y => s_end I y | None => 0 end) (s_start x)",
+         quant="(I : instance) (x : sop) (row : list sop)",
+         model="- (match last_opt row with Some y => s_start x - s_end I y | None => s_start x end)", unfold="",
+         props=["C13"]),
     # the action-space expression inside SingleJobShopGraphEnv.__init__:
     #   self.action_space = gym.spaces.MultiDiscrete([<nvec...>], start=[<start...>])
     dict(name="action_space", file="job_shop_lib/reinforcement_learning/_single_job_shop_graph_env.py",
@@ -94,10 +112,12 @@ KERNELS = [
 
 
 class Tr:
-    def __init__(self, leaves):
+    def __init__(self, leaves, expected=None):
         self.leaves = dict(leaves)
         self.locals = {}
         self.outputs = {}
+        self.expected = dict(expected or {})
+        self.seen_expected = set()
 
     def leaf(self, node):
         key = ast.unparse(node)
@@ -176,6 +196,43 @@ class Tr:
         for s in stmts:
             if isinstance(s, ast.Expr) and isinstance(s.value, ast.Constant):
                 continue   # docstring
+            if isinstance(s, ast.Assign) and len(s.targets) == 1 and isinstance(s.targets[0], ast.Name) \
+                    and s.targets[0].id in self.expected:
+                # a local the kernel table gives a meaning to (a row, an element of it): the right-hand side must be
+                # textually the expected expression, otherwise the kernel falls back
+                if ast.unparse(s.value) != self.expected[s.targets[0].id]:
+                    raise Untranslatable(f"{s.targets[0].id} is no longer assigned {self.expected[s.targets[0].id]}")
+                self.seen_expected.add(s.targets[0].id)
+                continue
+            if isinstance(s, ast.If):
+                cond = self.boolean(s.test)
+                before = dict(self.locals)
+                branches = []
+                for blk in (s.body, s.orelse):
+                    self.locals = dict(before)
+                    for t in blk:
+                        if isinstance(t, ast.Assign) and len(t.targets) == 1 and isinstance(t.targets[0], ast.Name):
+                            name = t.targets[0].id
+                            if name in self.expected:
+                                if ast.unparse(t.value) != self.expected[name]:
+                                    raise Untranslatable(f"{name} is no longer assigned {self.expected[name]}")
+                                self.seen_expected.add(name)
+                            else:
+                                self.locals[name] = self.expr(t.value)
+                        else:
+                            raise Untranslatable("unsupported statement inside if: " + ast.unparse(t)[:80])
+                    branches.append(self.locals)
+                merged = dict(before)
+                for name in set(branches[0]) | set(branches[1]):
+                    a, b = branches[0].get(name), branches[1].get(name)
+                    if a == b:
+                        merged[name] = a
+                        continue
+                    if a is None or b is None or a[1] != b[1]:
+                        raise Untranslatable(f"{name} is not assigned a value of one type on both paths")
+                    merged[name] = (f"(if {cond} then {a[0]} else {b[0]})", a[1])
+                self.locals = merged
+                continue
             if isinstance(s, ast.Assign) and len(s.targets) == 1 and isinstance(s.targets[0], (ast.Name, ast.Attribute)):
                 key = ast.unparse(s.targets[0])
                 self.locals[key] = self.expr(s.value)
@@ -232,7 +289,12 @@ def translate(k):
                 start = "[" + "; ".join(tr.num(e) for e in call.keywords[0].value.elts) + "]"
                 return f"({nvec}, {start})"
         raise Untranslatable("assignment to " + k["assign_target"] + " not found")
-    return Tr(k["leaves"]).body(fn.body, k.get("outputs"))
+    tr = Tr(k["leaves"], k.get("expected"))
+    out = tr.body(fn.body, k.get("outputs"))
+    missing = set(tr.expected) - tr.seen_expected
+    if missing:
+        raise Untranslatable("expected local(s) not assigned: " + ", ".join(sorted(missing)))
+    return out
 
 
 def check_kernels(pid):
@@ -258,7 +320,10 @@ def check_kernels(pid):
             text += f"From JSL Require Import {k['imports']}.\n"
         text += f"Definition gen_k {k['params']} : {k['rtype']} := {body}.\n"
         text += TACTIC % {"unfold": unfold}
-        text += f"Lemma gen_k_ok : forall {k['args']}, gen_k {k['args']} = {k['model']}.\nProof. kernel. Qed.\n"
+        if k.get("call"):
+            text += f"Lemma gen_k_ok : forall {k['quant']}, {k['call']} = {k['model']}.\nProof. kernel. Qed.\n"
+        else:
+            text += f"Lemma gen_k_ok : forall {k['args']}, gen_k {k['args']} = {k['model']}.\nProof. kernel. Qed.\n"
         with open(path, "w") as f:
             f.write(text)
         try:
